@@ -55,7 +55,7 @@ void EthernetStatus::write(AbstractFile & os) {
 }
 
 uint32_t EthernetStatus::calculateObjectSize() const {
-    return
+    uint32_t size =
         ObjectHeader::calculateObjectSize() +
         sizeof(channel) +
         sizeof(flags) +
@@ -68,6 +68,12 @@ uint32_t EthernetStatus::calculateObjectSize() const {
         sizeof(pairs) +
         sizeof(hardwareChannel) +
         sizeof(bitrate);
+
+    /* the following variables are only available in Version 2 and above */
+    if (apiMajor >= 2)
+        size += sizeof(reservedEthernetStatus1) + sizeof(reservedEthernetStatus2);
+
+    return size;
 }
 
 }
